@@ -8,7 +8,9 @@
 From Coq Require Import List NArith Bool.
 From Coq Require String.
 Import String.StringSyntax.
-From Sccache Require Import Base.Sx Model.Lru Model.TcCache.
+From Sccache Require Import Base.Sx.
+From Sccache Require Import Model.Lru.
+From Sccache Require Import Model.TcCache.
 Import ListNotations.
 Local Open Scope N_scope.
 Local Open Scope string_scope.
@@ -101,5 +103,54 @@ Definition run_c17 (x : sx) : sx :=
   | _ => err "bad case"
   end.
 
+(* ---- the client leg:  case = ( cap ( (content id) ... ) ( op ... ) )
+        obs = ( res ( ret ... ) ( touched ) ( (path content mtime digest) ... ) ntmp ) ---- *)
+Definition dec_cop (x : sx) : option cop :=
+  match x with
+  | SL [t; a] =>
+      if is_sym "get" t then Some (CGet (get_B a))
+      else if is_sym "reopen" t then Some (CReopen (get_N a))
+      else None
+  | SL [t; a; b; c] =>
+      if is_sym "put" t then Some (CPut (get_B a) (get_B b) (get_bool c)) else None
+  | _ => None
+  end.
+
+Fixpoint dec_cops (l : list sx) : option (list cop) :=
+  match l with
+  | [] => Some []
+  | x :: r => match dec_cop x, dec_cops r with
+              | Some o, Some os => Some (o :: os)
+              | _, _ => None
+              end
+  end.
+
+Definition enc_cobs (digest : bytes -> id) (x : tout * cst) : sx :=
+  let '(o, cs) := x in
+  let s := tcs cs in
+  let '(r, t, ret) := match o with
+                      | TORes r t ret => (enc_tres r, sopt SB t, SL (map SB ret))
+                      | TOBool b => (sym (if b then "true" else "false"), SL [], SL [])
+                      end in
+  SL [ r; ret; t;
+       SL (map (fun e => let c := match alookup (fst e) (cont s) with Some c => c | None => [] end in
+                         SL [SB (fst e); SB c; SN (snd (snd e)); SB (digest c)]) (files (lru s)));
+       snat (length (handles (lru s))) ].
+
+Definition run_client (x : sx) : sx :=
+  match x with
+  | SL [c; SL tab; SL ops] =>
+      match dec_cops ops with
+      | Some os =>
+          let dg := table_digest (map dec_pair tab) in
+          let s0 := {| tcs := initial (get_N c) []; weak := [] |} in
+          SL (map (enc_cobs dg) ((TORes TOk None [], s0) :: ctrace dg s0 os))
+      | None => err "bad op"
+      end
+  | _ => err "bad case"
+  end.
+
 Definition dispatch (leg : list N) (x : sx) : sx :=
-  if bytes_eqb leg (bs "tccache") then run_c17 x else err "unknown leg".
+  if bytes_eqb leg (bs "tccache") then run_c17 x
+  else if bytes_eqb leg (bs "client") then run_client x
+  else err "unknown leg".
